@@ -102,7 +102,7 @@ type world struct {
 	ts      map[int]*mockT
 	realEnv bool
 	out     *bufio.Writer
-	ann     *bufio.Writer
+	ann     *annW
 }
 
 func (w *world) abs(rel string) string {
@@ -1558,7 +1558,7 @@ func TestVerifHarness(t *testing.T) {
 		}
 		root, _ = filepath.EvalSymlinks(root)
 		w = &world{root: root, cfgs: map[int]*Config{}, cfgJSON: map[int]*JSONConfig{}, cfgPlain: map[int]bool{}, optCache: map[string]func(*Config){}, matcherCache: map[string]bothMatcher{}, ts: map[int]*mockT{},
-			realEnv: os.Getenv("VERIF_REALENV") == "1", out: bufio.NewWriter(outF), ann: bufio.NewWriter(annF)}
+			realEnv: os.Getenv("VERIF_REALENV") == "1", out: bufio.NewWriter(outF), ann: &annW{Writer: bufio.NewWriter(annF)}}
 		testsRegistry = newRegistry()
 		standaloneTestsRegistry = newStandaloneRegistry()
 		testEvents = newTestEvents()
@@ -1582,6 +1582,11 @@ func TestVerifHarness(t *testing.T) {
 				if r := recover(); r != nil {
 					w.flushHeld()
 					fmt.Fprintf(w.out, "panic:%s\n", hx(fmt.Sprint(r)))
+					// the model must still see the operation (one answer per operation on both sides): hand the
+					// line on unless the handler had already done so before the library panicked
+					if !strings.HasPrefix(w.ann.last, line) {
+						fmt.Fprintln(w.ann, line)
+					}
 				}
 			}()
 			w.exec(line)
@@ -1598,6 +1603,17 @@ func TestVerifHarness(t *testing.T) {
 	}
 }
 
+
+// annW is the stream of lines handed to the model; it remembers the last line written
+type annW struct {
+	*bufio.Writer
+	last string
+}
+
+func (a *annW) Write(p []byte) (int, error) {
+	a.last = string(p)
+	return a.Writer.Write(p)
+}
 
 // yieldMatcher: a user-defined matcher that takes its time (it yields the processor) and changes nothing
 type yieldMatcher struct{}
